@@ -50,10 +50,13 @@ func runC06(s *sess, closeCloseEnqueue bool) map[string]any {
 	done := 0
 	t0 := time.Date(2024, 1, 1, 0, 0, 0, 0, time.UTC)
 	far := t0.Add(1000000 * time.Hour)
+	watchClock, stopNudger := nudger()
+	defer stopNudger()
 	for round := 0; round < rounds && s.more(); round++ {
 		var g group
 		variant := round + s.seed
 		clk := clocktesting.NewFakeClock(t0)
+		watchClock(clk)
 		var executed atomic.Int64
 		var closedReturned atomic.Bool
 		proc := queue.NewProcessor[string, *qitem](func(it *qitem) {
